@@ -269,8 +269,70 @@ Definition pose_close_q (a b : pose) : bool :=
 Definition equal : dataset -> dataset -> bool := equal_with pose_close_q isclose_sym set_equal walk.
 Definition equal_legacy : dataset -> dataset -> bool := equal_with pose_close_q np_isclose subsetb walk_legacy.
 
-(* ---- correspondence: two datasets given as a shared base plus per-side overrides, and the two
-   booleans equal_kapture(a, b), equal_kapture(b, a) observed on the real objects *)
+(* ---- the 18 helpers one by one: what equal_<part>(a.<part>, b.<part>) answers, in the order of the walk;
+   equal_kapture is their conjunction (Proofs/PCompare.v: equal_is_conjunction) *)
+Definition answer_with pc nc se (p : part_id) (a b : dataset) : bool :=
+  opt_equal (part_equal pc nc se p) (get p a) (get p b).
+Definition answer : part_id -> dataset -> dataset -> bool := answer_with pose_close_q isclose_sym set_equal.
+Definition answers (a b : dataset) : list bool := map (fun p => answer p a b) walk.
+
+(* ---- the error branch.  The ten helpers built on equal_nested_dict_or_set (the nine record kinds and
+   observations) are given an expected class: BEFORE anything else (before the None tests, first argument first)
+   an argument that is not None and not an instance of that class raises TypeError.  No part class derives from
+   another one (Gen/Tcompare.instance_pairs, read from the code), so "instance of" is "same class".
+   An argument of a helper is None or an object: its class (named by the part it is the class of) and its content.
+   For the eight other helpers (sensors, rigs, trajectories, the four collections, points3d) a foreign class is
+   NOT modelled (AssertionError / AttributeError by accident of the code): the model ignores the class there and
+   the correspondence only passes the own class. *)
+Inductive outcome := Ans (b : bool) | TypeErr | OtherErr.   (* OtherErr: observed only, the model never answers it *)
+Definition outcome_eqb (x y : outcome) : bool :=
+  match x, y with
+  | Ans a, Ans b => Bool.eqb a b
+  | TypeErr, TypeErr => true
+  | OtherErr, OtherErr => true
+  | _, _ => false
+  end.
+Definition typed_helper (h : part_id) : bool :=
+  match h with
+  | RecordsCamera | RecordsDepth | RecordsLidar | RecordsWifi | RecordsBluetooth | RecordsGnss
+  | RecordsAccelerometer | RecordsGyroscope | RecordsMagnetic | Observations => true
+  | _ => false
+  end.
+Definition obj := (part_id * part)%type.            (* class, content *)
+Definition foreign (h : part_id) (x : option obj) : bool :=
+  match x with Some (cls, _) => negb (eqb cls h) | None => false end.
+Definition helper_call_with pc nc se (h : part_id) (x y : option obj) : outcome :=
+  if typed_helper h && (foreign h x || foreign h y) then TypeErr
+  else Ans (opt_equal (part_equal pc nc se h) (option_map snd x) (option_map snd y)).
+Definition helper_call : part_id -> option obj -> option obj -> outcome :=
+  helper_call_with pose_close_q isclose_sym set_equal.
+
+(* equal_kapture as the code runs it: the helpers one after the other, the first answer that is not True is
+   the outcome (a False before a foreign class hides the TypeError, a foreign class before a False hides it) *)
+Definition tdataset := list (part_id * obj).        (* attribute -> object (class, content) *)
+Definition untag (d : tdataset) : dataset := map (fun e => (fst e, snd (snd e))) d.
+Fixpoint walk_outcome (w : list part_id) (a b : tdataset) : outcome :=
+  match w with
+  | [] => Ans true
+  | p :: w' => match helper_call p (lookup p a) (lookup p b) with
+               | Ans true => walk_outcome w' a b
+               | r => r
+               end
+  end.
+Definition equal_outcome : tdataset -> tdataset -> outcome := walk_outcome walk.
+(* what the typed setters of kapture.Kapture guarantee (Gen/Tcompare.setter_rejects: observed on the code) *)
+Definition own_class (d : tdataset) : Prop := forall p c x, lookup p d = Some (c, x) -> c = p.
+
+(* ---- correspondence: two datasets given as a shared base plus per-side overrides, the two
+   booleans equal_kapture(a, b), equal_kapture(b, a) observed on the real objects, the answers of the 18 helpers
+   called one by one on the parts of the two objects (both orders), and direct helper calls with arguments taken
+   from the two objects: (helper, attribute of a passed first or None, attribute of b passed second or None, outcome) *)
+Record hcall := {
+  h_fn : part_id;
+  h_a : option part_id;
+  h_b : option part_id;
+  h_out : outcome;
+}.
 Fixpoint override (d : dataset) (ch : list (part_id * option part)) : dataset :=
   match ch with
   | [] => d
@@ -284,12 +346,28 @@ Record case := {
   c_db : list (part_id * option part);
   o_ab : bool;
   o_ba : bool;
+  o_parts_ab : list bool;
+  o_parts_ba : list bool;
+  o_calls : list hcall;
 }.
 
+Definition arg_of (d : dataset) (cls : option part_id) : option obj :=
+  match cls with
+  | None => None
+  | Some c => match get c d with Some x => Some (c, x) | None => None end
+  end.
+Definition check_call (a b : dataset) (h : hcall) : bool :=
+  outcome_eqb (helper_call (h_fn h) (arg_of a (h_a h)) (arg_of b (h_b h))) (h_out h).
+
+(* the model's 18 answers are computed once per order; equal a b is their conjunction (equal_is_conjunction) *)
 Definition check_case (c : case) : bool :=
   let a := override (c_base c) (c_da c) in
   let b := override (c_base c) (c_db c) in
-  Bool.eqb (equal a b) (o_ab c) && Bool.eqb (equal b a) (o_ba c).
+  let ab := answers a b in
+  let ba := answers b a in
+  eqb ab (o_parts_ab c) && eqb ba (o_parts_ba c)
+  && Bool.eqb (forallb (fun x => x) ab) (o_ab c) && Bool.eqb (forallb (fun x => x) ba) (o_ba c)
+  && forallb (check_call a b) (o_calls c).
 
 (* a comparison HISTORY: the same two dataset objects compared several times, with mutations (through
    any method the containers offer) and cache-filling queries in between.  Each element is the content of
